@@ -142,6 +142,17 @@ class Ctx:
             self.log(self.proof_error)
             return False
         self.log(f"proof gate: {self.discharged}/{self.obligations} theorems, axioms={axioms or 'none'}")
+        if self.tier == "thorough":
+            # the independent checker on the compiled property module and all its dependencies
+            okc, chk_ax, chk_out = coqbuild.coqchk(module)
+            self.coverage["coqchk"] = {"accepted": okc, "axioms_of_all_loaded_libraries": chk_ax}
+            allowed = {"Coq.Logic.FunctionalExtensionality.functional_extensionality_dep", "Coq.Reals.ClassicalDedekindReals.sig_not_dec",
+                       "Coq.Reals.ClassicalDedekindReals.sig_forall_dec", "Coq.Logic.Classical_Prop.classic"}
+            if not okc or not set(chk_ax) <= allowed:
+                self.proof_error = f"coqchk: accepted={okc} axioms={chk_ax} {chk_out[-600:]}"
+                self.log(self.proof_error)
+                return False
+            self.log(f"coqchk accepted {module}; axioms of all loaded libraries: {chk_ax or 'none'}")
         return True
 
     def vm_crosscheck(self, mlines, model, n=40):
